@@ -37,6 +37,7 @@ static char UPV[NM][NPAT][2];             /* user pointers given at subscription
 static char SRCUP[NM][16];
 static void *SRCUPH[NM][16];              /* heap user data of sources registered with M_SRC_AUTOFREE (NULL otherwise); owned by the library once the registration succeeded */
 static void *UPVH[NM][NPAT];               /* same for subscriptions */
+static void *UPVH_OLD[NM][NPAT][6]; static int UPVH_OLDN[NM][NPAT];           /* the block of the subscription object that was replaced last (a message sent under it still carries it) */
 #define SRCUPP(s, j) (SRCUPH[s][j] ? (const void *)SRCUPH[s][j] : (const void *)&SRCUP[s][j])
 static char PATHS[2][64]; static int CHILD[2];   /* path and pid keys (created once per worker) */                /* user pointers of non-ps sources */
 
